@@ -88,7 +88,7 @@ CLAIMS.update({
     'C16': ('loop/call skeleton regenerated from /repo on every run equals the expected one (reflexivity): all loops bounded '
             'except IntervalProducer\'s two while loops; exhausted bound = InfiniteLoopDetectedError; interval terminates '
             'when an admissible grid point exists within the fuel; never-accepting filter refuted (F9, known finding). '
-            'cost_bound (closed form of the loop bounds); wall-clock budget per call in the correspondence; known findings F9 F17 F19', P_NOTE, '6/C16'),
+            'cost_bound (closed form of the loop bounds); wall-clock budget per call in the correspondence; known findings F9 F17 F19 F20', P_NOTE, '6/C16'),
     'C19': ('every row of the property for all tables / now / arguments: none=now, durations, identity rows, naive = system '
             'local, time of day = today-or-tomorrow and (under wf_tz_b + dates-forward) the LEAST instant >= now showing it, '
             'positivity, past tolerance tied to the generated constant. The refusal of a time that is skipped/repeated today '
@@ -171,7 +171,7 @@ CLAIMS['C15'] = ('builder_noninterference (every builder call only appends; exis
     CLAIMS['C15'][1], '6/C15 + 11')
 CLAIMS['C16'] = ('loop/call skeleton regenerated from /repo equals the expected one; cost_bound: for EVERY expression the number of '
     'loop rounds is bounded by a closed form of the generated loop bound (99 999 per nesting level; interval: its fuel); '
-    'interval_terminates; interval_unsat_refuted (F9); known findings F9 F17 F19', P_NOTE, '6/C16 + 11')
+    'interval_terminates; interval_unsat_refuted (F9); known findings F9 F17 F19 F20', P_NOTE, '6/C16 + 11')
 
 # second tie: statement-level translators regenerate Gallina from the sources on every run; Gen*Eq.v proves it equal to the model
 TIES = {
